@@ -2,7 +2,7 @@
  * C15 harness (a'): the real process_data loops of lib/xfrm/src/{gzip,xz,bzip2,zstd}.c (compiled from the working tree
  * with harness/c15_fakelib.h force-included, no real compression library linked) driven call by call.
  * Line protocol as `sqfsmodel c15`, op `wrap`:
- *   wrap <new|old> <gzip|xz|bzip2|zstd> <c|d> <absorb> <gran> <thresh> <mode>:<room>:<in hex> ...
+ *   wrap <new|old|big> <gzip|xz|bzip2|zstd> <c|d> <absorb> <gran> <thresh> <mode>:<room>:<in hex> ...
  *   -> per call `ret,consumed,<out hex>` joined by blanks  (the first field is for the model only)
  */
 #include "config.h"
@@ -12,6 +12,7 @@
 #include "cpu_watchdog.h"
 
 extern size_t c15_absorb, c15_gran, c15_thresh;
+extern unsigned long long c15_total_bias;
 #define MAXTOK 4096
 
 int main(void)
@@ -25,6 +26,7 @@ int main(void)
 		xfrm_stream_t *x;
 		for (t = strtok_r(line, " \n", &save); t && ntok < MAXTOK; t = strtok_r(NULL, " \n", &save)) tok[ntok++] = t;
 		if (ntok < 7 || strcmp(tok[0], "wrap") != 0) { puts("bad-op"); fflush(stdout); continue; }
+		c15_total_bias = strcmp(tok[1], "big") == 0 ? 0xFFFFFFFFull : 0;
 		id = xfrm_compressor_id_from_name(tok[2]);
 		c15_absorb = strtoul(tok[4], NULL, 10); c15_gran = strtoul(tok[5], NULL, 10); c15_thresh = strtoul(tok[6], NULL, 10);
 		if (id <= 0 || (tok[3][0] != 'c' && tok[3][0] != 'd')) { puts("bad-op"); fflush(stdout); continue; }
